@@ -415,13 +415,15 @@ def lookupKw (kw : List (Nat × Int)) (a : Nat) : Option Int :=
   | (a', v) :: r => if a' = a then some v else lookupKw r a
 
 /-- the candidate of `_find_in_cache_`: primary key, then the simple keys, then the composite keys -/
-def findCand (sch : Schema) (s : Sess) (pk : Option KeyVal) (kw : List (Nat × Int)) : Option ObjId :=
-  let av : Nat → Slot := fun a => match lookupKw kw a with
+def kwVals (kw : List (Nat × Int)) : Nat → Slot :=
+  fun a => match lookupKw kw a with
     | some v => .val (some v)
     | none => .notLoaded
+
+def findCand (sch : Schema) (s : Sess) (pk : Option KeyVal) (kw : List (Nat × Int)) : Option ObjId :=
   match pk.bind s.pkIx.get with
   | some o => some o
-  | none => (allKeys sch).findSome? fun i => (kv sch av i).bind (s.ixs i).get
+  | none => (allKeys sch).findSome? fun i => (kv sch (kwVals kw) i).bind (s.ixs i).get
 
 /-- the value loop of `_find_in_cache_`: `if val != attr.__get__(obj): throw(ObjectNotFound)` (the read sets the read bit) -/
 def findCheck (ob : Obj) : List (Nat × Int) → Obj × Option Err
